@@ -47,7 +47,8 @@ Sig(n) ==
     [] n = "join" -> << <<"strs", "str">>, FALSE >>
     [] n = "mapToArr" -> << <<"maps", "str">>, FALSE >>
     \* host functions of the conformance harness (placed in the data map by the driver)
-    [] n \in {"rec", "fail", "failv", "id"} -> << <<"any">>, FALSE >>
+    [] n \in {"rec", "fail", "failv", "id", "crec"} -> << <<"any">>, FALSE >>          \* crec: func(ctx, x) - the context is injected, not an argument
+    [] n = "cstr" -> << <<"stringer">>, FALSE >>          \* func(ctx, fmt.Stringer): strings, booleans, arrays and maps do not satisfy the interface
     [] n = "recs" -> << <<"any">>, TRUE >>                \* variadic recorder
     [] n = "add2" -> << <<"int", "int">>, FALSE >>
     [] n = "cat" -> << <<"str">>, TRUE >>
@@ -66,6 +67,9 @@ Conv(kind, v) ==
     [] kind = "time" -> IF v[1] = "time" THEN <<"ok", TRUE>> ELSE IF v[1] = "null" THEN <<"u">> ELSE <<"err">>
     [] kind = "strs" -> IF v[1] = "arr" THEN <<"ok", \A i \in 1..Len(v[2]) : v[2][i][1] = "str">>
                         ELSE IF v[1] = "null" THEN <<"u">> ELSE <<"err">>
+    \* fmt.Stringer: numbers (*decimal.Big) and times have a String method, null becomes a nil interface (open); strings,
+    \* booleans, arrays and maps do not satisfy the interface
+    [] kind = "stringer" -> IF v[1] \in {"str", "bool", "arr", "map"} THEN <<"err">> ELSE <<"u">>
     [] kind = "maps" -> IF v[1] = "arr" THEN <<"u">> ELSE IF v[1] = "null" THEN <<"u">> ELSE <<"err">>
 
 \* truncation toward zero of a number used as a Go int; pinned below 2^53
@@ -99,6 +103,21 @@ TrimR(s) == IF Len(s) > 0 /\ s[Len(s)] \in AsciiWS THEN TrimR(SubSeq(s, 1, Len(s
 AllAscii(s) == \A i \in 1..Len(s) : s[i] < 128
 LowerB(s) == [i \in 1..Len(s) |-> IF s[i] >= 65 /\ s[i] <= 90 THEN s[i] + 32 ELSE s[i]]
 UpperB(s) == [i \in 1..Len(s) |-> IF s[i] >= 97 /\ s[i] <= 122 THEN s[i] - 32 ELSE s[i]]
+\* case mapping beyond ASCII is pinned for a few letters of three scripts (e-acute, n-tilde, gamma, ya) and for a caseless
+\* ideograph; a text made only of ASCII and these is mapped letter by letter, any other text is left open
+CasePairs == << << <<195,169>>, <<195,137>> >>, << <<195,177>>, <<195,145>> >>, << <<206,179>>, <<206,147>> >>, << <<209,143>>, <<208,175>> >> >>   \* <<lower, upper>>
+CaselessSeqs == { <<228,184,173>> }
+PairAt(bs, i) == IF i + 1 <= Len(bs) THEN {k \in 1..Len(CasePairs) : <<bs[i], bs[i + 1]>> \in {CasePairs[k][1], CasePairs[k][2]}} ELSE {}
+RECURSIVE CaseMap(_, _, _)
+CaseMap(bs, i, up) ==      \* <<pinned, mapped bytes from position i on>>
+  IF i > Len(bs) THEN <<TRUE, <<>>>>
+  ELSE IF bs[i] < 128 THEN
+       LET r == CaseMap(bs, i + 1, up) IN <<r[1], (IF up THEN UpperB(<<bs[i]>>) ELSE LowerB(<<bs[i]>>)) \o r[2]>>
+  ELSE IF PairAt(bs, i) # {} THEN
+       LET k == CHOOSE k \in PairAt(bs, i) : TRUE  r == CaseMap(bs, i + 2, up) IN <<r[1], (IF up THEN CasePairs[k][2] ELSE CasePairs[k][1]) \o r[2]>>
+  ELSE IF i + 2 <= Len(bs) /\ <<bs[i], bs[i + 1], bs[i + 2]>> \in CaselessSeqs THEN
+       LET r == CaseMap(bs, i + 3, up) IN <<r[1], <<bs[i], bs[i + 1], bs[i + 2]>> \o r[2]>>
+  ELSE <<FALSE, <<>>>>
 Repeat(b, n) == [i \in 1..n |-> b]
 RECURSIVE JoinB(_, _, _)
 JoinB(l, sep, i) == IF i > Len(l) THEN <<>>
@@ -163,8 +182,8 @@ Pure(n, a) ==
     [] n = "right" -> IF ~IsTiny(a[2]) \/ SmallInt(a[2]) < 0 THEN RU ELSE RV(Str(RightB(a[1][2], SmallInt(a[2]))))
     [] n = "mid" -> IF ~IsTiny(a[2]) \/ ~IsTiny(a[3]) \/ SmallInt(a[2]) > SmallInt(a[3]) THEN RU
                     ELSE RV(Str(MidB(a[1][2], SmallInt(a[2]), SmallInt(a[3]))))
-    [] n = "lower" -> IF AllAscii(a[1][2]) THEN RV(Str(LowerB(a[1][2]))) ELSE RU
-    [] n = "upper" -> IF AllAscii(a[1][2]) THEN RV(Str(UpperB(a[1][2]))) ELSE RU
+    [] n = "lower" -> LET r == CaseMap(a[1][2], 1, FALSE) IN IF r[1] THEN RV(Str(r[2])) ELSE RU
+    [] n = "upper" -> LET r == CaseMap(a[1][2], 1, TRUE) IN IF r[1] THEN RV(Str(r[2])) ELSE RU
     [] n = "trim" -> IF AllAscii(a[1][2]) THEN RV(Str(TrimR(TrimL(a[1][2])))) ELSE RU
     [] n = "replace" -> IF a[2][2] = <<>> THEN RU ELSE RV(Str(ReplaceB(a[1][2], a[2][2], a[3][2], 1)))
     [] n \in {"lpad", "rpad"} ->
@@ -256,6 +275,8 @@ ApplyFunc(n, args0, spread, log) ==
             ELSE IF \E i \in 1..na : cs[i][1] # "ok" THEN RU
             ELSE LET natural == \A i \in 1..na : cs[i][2] IN
               CASE n = "rec" -> <<"v", args[1], Append(log, <<"rec", args>>)>>
+                [] n = "crec" -> <<"v", args[1], Append(log, <<"crec", args>>)>>
+                [] n = "cstr" -> RU
                 [] n = "id" -> <<"v", args[1], log>>
                 [] n = "fail" -> <<"e", Append(log, <<"fail", args>>)>>
                 [] n = "failv" -> <<"e", Append(log, <<"failv", args>>)>>      \* returns (-1, error): still only an error
